@@ -446,7 +446,37 @@ def run_playback(test_name, release, workdir):
 # main
 # --------------------------------------------------------------------------
 
+def setup():
+    """Build the Kani dependency cache and the native playback cache (see setup.sh)."""
+    os.makedirs(CACHE, exist_ok=True)
+    files, allh = load_property("C42")
+    h = [x for x in allh if x.name == "workers_for_all"][0]
+    workdir = os.path.join(os.path.dirname(OVERLAY), "work-setup")
+    os.makedirs(workdir, exist_ok=True)
+    lockf = open(LOCK, "w")
+    fcntl.flock(lockf, fcntl.LOCK_EX)
+    make_overlay(files)
+    t0 = time.time()
+    rc, out_json, logf = kani_verify([h], "quick", workdir)
+    log(f"[setup] kani cache built in {time.time() - t0:.0f}s (exit {rc})")
+    if not os.path.exists(out_json):
+        log(open(logf, errors="replace").read()[-3000:])
+        return 1
+    t0 = time.time()
+    test = ("#[test]\nfn kani_concrete_playback_setup_probe() {\n    let concrete_vals: Vec<Vec<u8>> = vec![vec![3, 0, 0, 0, 0, 0, 0, 0], "
+            "vec![8, 0, 0, 0, 0, 0, 0, 0]];\n    kani::concrete_playback_run(concrete_vals, workers_for_all);\n}\n")
+    insert_tests(h, [{"code": test}])
+    o, lf = run_playback("kani_concrete_playback_setup_probe", False, workdir)
+    log(f"[setup] playback cache built in {time.time() - t0:.0f}s ({o})")
+    if o != "not-reproduced":
+        log(open(lf, errors="replace").read()[-3000:])
+        return 1
+    return 0
+
+
 def main():
+    if len(sys.argv) > 1 and sys.argv[1] == "--setup":
+        return setup()
     ap = argparse.ArgumentParser()
     ap.add_argument("property")
     ap.add_argument("--tier", default=os.environ.get("VERIF_TIER", "quick"), choices=["quick", "thorough"])
